@@ -506,6 +506,9 @@ def judgeExtra2 (hNew hOld : HCtx) (op res : Array String) (dump : Option St) : 
         | some (.fin _) => false | some _ => t.length ≥ 9 | none => false) then
       match parsePt (op.getD 1 "") (op.getD 2 "") with
       | some q =>
+        -- barycentric weights of a point inside an ill-conditioned (sliver) face divide by an area
+        -- that rounds to zero: C19 speaks about well-conditioned triangulations, nothing is claimed
+        if name == "bary" && (s.locClass q).1 == 2 && !(wellConditioned s [(s.locClass q).2] 12) then (hNew, []) else
         let ext := s.extent [q]
         let near := (List.range s.nE).any fun e => s.fc e == 0 &&
           decide ((orient (s.A e) (s.B e) q).natAbs * 2 ^ 40 ≤ (ext * ext).natAbs)
